@@ -446,3 +446,33 @@ for _c in flow2:
     _c.callees = dict(FLOW_CALLEES)
     _c.callees.update({S + "__getitem__": getitem_int_callee, "JokerSamples.__getitem__": getitem_int_callee})
 CONTRACTS += flow2
+
+
+# ---- __setitem__ (it is only a callee above): a column is stored under a valid parameter name, with a unit of the right dimension, or the call raises ---
+def setitem_self(ex, path, name):
+    valid = PyDict([("P", A.U_DAY), ("e", A.U_ONE), ("K", A.unit(SPEED, 1000, "km/s")), ("ln_prior", A.U_ONE)])
+    tbl = T.qtable(PyDict(), _meta(), None)
+    return Obj("JokerSamples", {"tbl": tbl, "_valid_units": valid, "_cache": PyDict(), "__qualclass__": "thejoker.samples.JokerSamples"}, ident="self")
+
+
+def q_val(dim, nm):
+    def build(ex, path, name):
+        u_ = A.sym_unit(nm, dim)
+        path.assume(*u_.sym_facts)
+        return A.quantity(fresh_arr("new_col", 1, "real", [z3.Int("n_rows")]), u_)
+    return build
+
+
+setitem = [
+    Contract(S + "__setitem__", PROPERTY, params={"self": setitem_self, "key": ("const", "K"), "val": q_val(SPEED, "given_speed_unit")},
+             cases=[{"_name": "valid-name,right-dimension"}],
+             ensures={"stored-under-that-name-with-its-own-unit-and-values": "self.tbl['K'].unit is val.unit and self.tbl['K'].value is val.value and "
+                                                                             "list(self.tbl.colnames) == ['K']"}),
+    Contract(S + "__setitem__", PROPERTY, params={"self": setitem_self, "key": ("const", "K"), "val": q_val(TIME, "given_time_unit")},
+             cases=[{"_name": "valid-name,wrong-dimension"}], ensures={"must-raise": "False"}),
+    Contract(S + "__setitem__", PROPERTY, params={"self": setitem_self, "key": ("const", "not_a_parameter"), "val": q_val(SPEED, "given_speed_unit")},
+             cases=[{"_name": "unknown-name"}], ensures={"must-raise": "False"}),
+]
+for _c in setitem:
+    _c.returns_self = True
+CONTRACTS += setitem
